@@ -141,12 +141,16 @@ func (x *Exec) replayEntry(kind byte, cond func(v int64) *Term) int64 {
 		panic(fmt.Sprintf("trail divergence at %d: recorded %c, now %c (nondeterministic execution)", x.pos, e.kind, kind))
 	}
 	v := e.opts[e.cur]
+	c := cond(v)
 	if x.asserted == x.pos {
 		x.sol.Push()
-		if c := cond(v); c != nil {
+		if c != nil {
 			x.sol.Assert(c)
 		}
 		x.asserted++
+	}
+	if c != nil {
+		x.tb.Learn(c, true)
 	}
 	x.pos++
 	return v
@@ -169,6 +173,7 @@ func (x *Exec) pushEntry(kind byte, opts []int64, c *Term) {
 	x.sol.Push()
 	if c != nil {
 		x.sol.Assert(c)
+		x.tb.Learn(c, true)
 	}
 	x.asserted++
 	x.pos++
@@ -401,6 +406,7 @@ func (x *Exec) assertT(c *Term, msg string) {
 	var res string
 	neg := x.tb.Not(c)
 	var viol *Violation
+	x.sol.SetTimeout(x.assertTimeout)
 	if c.op == OConst {
 		// constant false: any model of the path condition is a counterexample
 		res = x.sol.Check()
@@ -408,7 +414,13 @@ func (x *Exec) assertT(c *Term, msg string) {
 		x.sol.Push()
 		x.sol.Assert(neg)
 		res = x.sol.Check()
+		if res == "unknown" {
+			// one retry with a longer limit before giving up
+			x.sol.SetTimeout(4 * x.assertTimeout)
+			res = x.sol.Check()
+		}
 	}
+	x.sol.SetTimeout(x.feasTimeout)
 	atomic.AddInt64(&R.AssertQueries, 1)
 	if res == "sat" {
 		viol = x.buildViolation(msg, "assert")
@@ -603,6 +615,8 @@ func (x *Exec) resetPath() {
 	x.mapRot = -1
 	x.mdl = nil
 	x.auxVars = x.auxVars[:0]
+	x.tb.known = map[*Term][2]uint64{}
+	x.tb.rmemo = map[*Term][2]uint64{}
 	x.nextMap = 0
 	x.fileData = map[string]fileStub{}
 	x.hb = nil
@@ -845,7 +859,7 @@ type Config struct {
 }
 
 func newExec(P *Program, sol *Solver, R *Results, cfg Config) *Exec {
-	x := &Exec{P: P, tb: NewTB(), sol: sol, R: R, tier: cfg.Tier, unwind: cfg.Unwind, stepLimit: cfg.StepLimit, casemax: cfg.CaseMax, trace: cfg.Trace,
+	x := &Exec{P: P, tb: NewTB(), sol: sol, R: R, tier: cfg.Tier, feasTimeout: cfg.TimeoutMs, assertTimeout: 4 * cfg.TimeoutMs, unwind: cfg.Unwind, stepLimit: cfg.StepLimit, casemax: cfg.CaseMax, trace: cfg.Trace,
 		funcsSeen: map[*ssa.Function]int64{}, stubsSeen: map[string]int64{}, bounds: map[string]int64{}}
 	if rt := P.prog.ImportedPackage("runtime"); rt != nil {
 		x.rtErrType = rt.Type("errorString").Object().Type()
